@@ -1,5 +1,5 @@
 /*VERIF
-{ "tu": "src/queue.c", "enforce": "_dispatch_queue_try_upgrade_full_width", "props": ["C04"],
+{ "tu": "src/queue.c", "enforce": "_dispatch_queue_try_upgrade_full_width", "props": ["C04", "C01"],
   "nondet_volatile": true, "timeout": 120,
   "assumes": ["rely (width accounting invariant, guaranteed by every width-moving contract of C04): while this thread is the drain-lock owner holding `owned` = k width units, dq_state has IN_BARRIER clear, and its 13-bit width counter (WIDTH_MASK incl. the FULL bit) equals 0x1000 - W + k + (width held by others), with 0 <= held by others <= W - k"] }
 VERIF*/
